@@ -1062,7 +1062,12 @@ class SyncInterpreter(BaseInterpreter[TContext, TEvent]):
             """Delivers the event unless cancelled while waiting."""
             if cancel_flag.wait(delay / 1000.0):
                 return
-            if send_id:
+            # 🧹 Only clear the registry if it still points at THIS send. A
+            #    later send reusing the id replaces the entry (after having
+            #    cancelled us - too late if our wait had already timed out),
+            #    and popping unconditionally would leave the newer send
+            #    uncancellable. Mirrors the async engine.
+            if send_id and self._scheduled_sends.get(str(send_id)) is _cancel:
                 self._scheduled_sends.pop(str(send_id), None)
             self._pending_send_cancels.discard(cancel_flag)
             try:
